@@ -3,7 +3,7 @@
      lyplg_type_parse_dec64                             src/plugins_types.c
    The parser is transcribed with its index arithmetic ([len], [fraction], [trailing_zeros],
    [size] are the C variables), defects included:
-     - a sign with no digit at all ("-", "+", "- ", "+.5", "-.5") is accepted (sign only = 0),
+     - a sign with no digit at all (the values  -  +  -SP  +.5  -.5 ) is accepted (sign only = 0),
      - value[len + 1] is read without checking len + 1 < value_len, so the decision on a value
        ending in '.' depends on the byte AFTER the value ([nxt] below; it is 0 when the caller
        passes a NUL-terminated string, '<' or a quote inside XML/JSON input).
@@ -96,7 +96,7 @@ Definition dec64_store (fd : nat) (parts : list (Z * Z)) (s : bytes) (nxt : N) :
   end.
 
 (* ---------- decimal64_num2str(num, type, &str) ----------
-   sprintf("%lld ") (zero-padded to fraction_digits + 1 digits when shorter), then the last
+   sprintf with the format %lld followed by one space (zero-padded to fraction_digits + 1 digits when shorter), then the last
    fraction_digits digits are moved one place to the right, dropping the zeros at the end but
    never the first fraction digit (the  i > 1  test), and '.' is put into the gap. num == 0 is
    printed as the literal 0.0 . *)
